@@ -144,10 +144,6 @@ deriving DecidableEq, Repr
 
 def St.setP (s : St) (i : Nat) (pc : PPc) : St := { s with pp := upd s.pp i pc }
 
-def ctxOf : OpKind → Ctx
-  | .send => .first
-  | .try_ => .try_
-
 /-- begin processing sample `v` (then `rest`): take the producer lock if this version has one -/
 def St.beginSample (s : St) (i : Nat) (k : OpKind) (v : Nat) (rest : List Nat) : St :=
   if s.v.plock then s.setP i (.acq k v rest)
@@ -182,8 +178,10 @@ def stepP (s : St) (i : Nat) (op : Option POp) : St :=
   | .chk k v rest =>
     if s.closed then
       let s := { s with rejected := s.rejected ++ [(i, v)] }
-      s.endSample i (ctxOf k) .closed rest
-    else s.setP i (.push (ctxOf k) v rest .ldTail)
+      s.endSample i .first .closed rest
+    else match k with
+      | .send => s.setP i (.push .first v rest .ldTail)
+      | .try_ => s.setP i (.push .try_ v rest .ldTail)
   | .push c v rest p =>
     match pushStep s.ring (i, v) p with
     | (r, .cont p') => { s.setP i (.push c v rest p') with ring := r }
